@@ -49,7 +49,7 @@ impl Prop for C09 {
         p.cogen_heavy = true;
         p.max_steps = tier.pick(12, 24);
         // subdivision is where a rule about the number of steps shows (a series crossing 8 760 steps): 12 % long series
-        p.long_w = 60;
+        p.long_w = tier.pick(60, 10);
         (bf_case(p, 50), vec(any::<u16>(), 24), select(vec![2usize, 3, 4, 5, 8]))
             .prop_map(|(base, keys, m)| Case { base, keys, m })
             .boxed()
